@@ -288,6 +288,10 @@ pub fn as_rust_type(node_type: &str, doc: &RustDocument) -> RustFieldType {
         "byte" => RustFieldType::I8,
         "string" | "normalizedString" | "base64Binary" | "hexBinary" | "anyURI" | "date" | "dateTime" | "time"
         | "language" | "duration" => RustFieldType::String,
+        // the other builtins of XSD whose values are text: carried as text too (they used to be taken for user types
+        // that nobody defines)
+        "token" | "Name" | "NCName" | "NMTOKEN" | "NMTOKENS" | "ID" | "IDREF" | "IDREFS" | "ENTITY" | "ENTITIES" | "QName"
+        | "NOTATION" | "gYear" | "gYearMonth" | "gMonth" | "gMonthDay" | "gDay" | "anySimpleType" => RustFieldType::String,
         "decimal" | "double" => RustFieldType::F64,
         "float" => RustFieldType::F32,
         "integer" | "int" | "negativeInteger" | "nonNegativeInteger" | "nonPositiveInteger" | "positiveInteger" => {
